@@ -1641,6 +1641,10 @@ class Stream(AbstractStream):
             self._imol.data = other._imol.data
         if phase and self._imol.data.ndim == 1:
             self._imol._phase = other._imol._phase
+        if hasattr(self, '_streams'): # Phase views follow the linked data
+            for i, stream in self._streams.items():
+                stream._imol = self._imol.get_phase(i)
+                stream._thermal_condition = self._thermal_condition
             
     def unlink(self):
         """
